@@ -8,6 +8,7 @@ import (
 	"sync"
 
 	cs "github.com/tendermint/tendermint/consensus"
+	cstypes "github.com/tendermint/tendermint/consensus/types"
 	"github.com/tendermint/tendermint/mempool"
 	tmproto "github.com/tendermint/tendermint/proto/tendermint/types"
 	"github.com/tendermint/tendermint/types"
@@ -32,6 +33,7 @@ type signRec struct {
 
 // monitor holds the oracles of the consensus-network simulation.
 type monitor struct {
+	inCommit map[int]int64 // node -> incarnation<<40|height while it sits in the commit step
 	s  *sim
 	mu sync.Mutex // onSigned is called from node goroutines (several at once in real-ticker mode)
 
@@ -384,6 +386,20 @@ func (m *monitor) afterStep() {
 			}
 			m.checkReplica(n)
 			m.checkAssembled(n, rs)
+			ck := int64(n.inc)<<40 | rs.Height
+			if rs.Step == cstypes.RoundStepCommit {
+				if m.inCommit == nil {
+					m.inCommit = map[int]int64{}
+				}
+				if m.inCommit[n.idx] != ck && rs.ProposalBlock == nil {
+					e.Count("probe.commit_step_without_block")
+				}
+				m.inCommit[n.idx] = ck
+			} else if m.inCommit[n.idx] == ck {
+				// knew the decision of this height, waits for the block - and moved to another round
+				delete(m.inCommit, n.idx)
+				e.Count("probe.left_commit_step_without_deciding")
+			}
 			if e.Checking("C18") && (m.auditAt[n.idx] != bh*1000+int64(n.inc)) {
 				m.auditAt[n.idx] = bh*1000 + int64(n.inc)
 				m.auditStores(n, "live")
